@@ -34,14 +34,14 @@ Section Writer.
   Definition send (fixed : bool) (b : list B) (oracle : list wstep) : list B * bool * list wstep :=
     write_loop fixed b b oracle.
 
-  (* a sequence of sends on one connection; a failed send ends the sequence
-     (channels stop using a transport after a failed send) *)
+  (* a sequence of sends on one connection; after a failed send the encoder (encoding/json) keeps its error: every
+     later send on that transport fails too and writes nothing *)
   Fixpoint sends (fixed : bool) (bs : list (list B)) (oracle : list wstep) : list B * list bool :=
     match bs with
     | [] => ([], [])
     | b :: bs' =>
         let '(e, ok, o') := send fixed b oracle in
         if ok then let (e', oks) := sends fixed bs' o' in (e ++ e', true :: oks)
-        else (e, [false])
+        else (e, false :: map (fun _ => false) bs')
     end.
 End Writer.
